@@ -78,6 +78,26 @@ CHECKS = {
             'return and restore a distinctive termios mode.',
             'Filters are stateless per byte; keystrokes are typed only after the terminal was seen in raw mode.',
             'DESIGN.md 3/C15'),
+    'C16': ('E5 real bash and python REPLs under replwrap',
+            'Hypothesis-generated command sequences over a command family with output known by construction (0..300 KB, '
+            'with/without final newline, multi-line blocks, incomplete constructs), run through REPLWrapper.run_command '
+            'directly and awaited, one REPL per sequence',
+            'Each returned value must be exactly the constructed output of its own command - nothing of the prompt, the '
+            'previous or the next command - across generated sequences that interleave large outputs, silent commands and '
+            'incomplete input (which must raise ValueError and leave the next command clean).',
+            'The command family is chosen so that the REPL prints exactly the constructed text. Parallelism limited to 6 '
+            'sessions because replwrap resynchronises with a hard-coded 1 s timeout.',
+            'DESIGN.md 3/C16'),
+    'C17': ('E5 scripted fake ssh client (peers/fakessh.py) under pxssh.login(cmd=...)',
+            'Hypothesis-generated server dialogues x login options x shell flavours against a recording fake ssh; oracle on '
+            'the order of what was read and sent (secrets only after their prompt, at most once), success only with a shell '
+            'reached and the unique prompt set, exact delimiting by prompt(), pexpect exceptions otherwise, within the timeouts',
+            'Dialogues over host-key/password/passphrase/denied/terminal-type/banner/shell/closed/silence/exit steps; the '
+            'fake\'s own record and sequence-stamped send/read logs decide whether a secret was sent unasked; canonical '
+            'dialogues must succeed, refusals must raise. One open known finding (guessing with both checks disabled).',
+            'Banner text never matches the password regex. Timeouts scaled via public arguments; the hard-coded 10 s of '
+            'set_unique_prompt capped by a harness subclass overriding expect().',
+            'DESIGN.md 3/C17'),
     'C07': ('real descriptors with generated read sizes + scripted children (E3)',
             'Hypothesis-generated text x codec x error policy x cut points pushed through real pipe/socketpair/'
             'SocketSpawn/pty-child/Popen-child/asyncio transports; round trip against one-shot incremental decoding; '
@@ -226,6 +246,9 @@ def main():
              'serves_properties': ['C04', 'C05', 'C06', 'C07', 'C08', 'C09', 'C10', 'C11', 'C12', 'C13'],
              'kind_free_text': 'real peers: scripted pty/Popen children recording what they receive, pre-filled '
                                'pipes/socketpairs, recording log files'},
+            {'name': 'E5', 'path': 'peers/rawpeer.py, peers/fakessh.py, vf/props/c12.py, vf/props/c16.py, vf/props/c17.py',
+             'serves_properties': ['C12', 'C16', 'C17'],
+             'kind_free_text': 'dialogue children: scripted run() dialogues, real bash/python REPLs, scripted fake ssh'},
             {'name': 'E6', 'path': 'vf/props/c15.py', 'serves_properties': ['C11', 'C15'],
              'kind_free_text': 'in-process user terminal: STDIN_FILENO/STDOUT_FILENO pointed at an os.openpty() slave, '
                                'sys.stdout swapped, interact() in a helper thread'},
